@@ -117,17 +117,38 @@ def hashinShtrikmanLower(mobility: np.array, phaseFracs: np.array, *args, **kwar
 def _postProcessDoNothing(therm: GeneralThermodynamics, mobility: np.array, phaseFracs: np.array, *args, **kwargs):
     return mobility, phaseFracs
 
+def _stablePhaseRows(therm: GeneralThermodynamics, phases, phaseName: str) -> list[int]:
+    '''
+    Rows of the per-point mobility / phase fraction arrays that belong to phaseName
+
+    The arrays returned by _computeSingleMobility have one row per phase that is stable
+    at that point (MobilityData.phases), which is generally neither the same length nor
+    in the same order as therm.phases, so rows have to be looked up by name
+
+    Raises ValueError if phaseName is not a phase of therm
+    Returns an empty list if phaseName is not stable at this point
+    '''
+    if phaseName not in therm.phases:
+        raise ValueError(f'{phaseName} is not in list of phases {therm.phases}')
+    return [i for i, p in enumerate(phases) if p == phaseName]
+
 def _postProcessPredefinedMatrixPhase(therm: GeneralThermodynamics, mobility: np.array, phaseFracs: np.array, *args, **kwargs):
     '''
     User will supply a predefined "alpha" phase, which the mobility is taken
     from for all undefined mobility
 
     Note: this assumes the user will know that "alpha" is continuously stable
-    across the diffusion couple
+    across the diffusion couple. Where "alpha" is not stable, the mobility is left as is
+
+    kwargs['phases'] is the list of stable phases that the rows of mobility and phaseFracs
+    correspond to (therm.phases if not given). The input arrays are not modified.
     '''
     alpha_phase = args[0]
-    alpha_idx = therm.phases.index(alpha_phase)
-    alpha_mob = mobility[alpha_idx]
+    alpha_rows = _stablePhaseRows(therm, kwargs.get('phases', therm.phases), alpha_phase)
+    if len(alpha_rows) == 0:
+        return mobility, phaseFracs
+    mobility = np.array(mobility)
+    alpha_mob = np.array(mobility[alpha_rows[0]])
     for i in range(mobility.shape[1]):
         mobility[:,i][mobility[:,i] == -1] = alpha_mob[i]
     return mobility, phaseFracs
@@ -136,7 +157,10 @@ def _postProcessMajorityPhase(therm: GeneralThermodynamics, mobility: np.array, 
     '''
     Takes the majority phase and applies the mobility for all other phases
     with undefined mobility
+
+    The input arrays are not modified.
     '''
+    mobility = np.array(mobility)
     max_idx = np.argmax(phaseFracs)
     for i in range(mobility.shape[1]):
         mobility[:,i][mobility[:,i] == -1] = mobility[max_idx,i]
@@ -147,11 +171,16 @@ def _postProcessExcludePhases(therm: GeneralThermodynamics, mobility: np.array, 
     For all excluded phases, the mobility and phase fraction will be set to 0
     This assumes that user knows the excluded phases to be minor or that the
     mobility is unknown
+
+    kwargs['phases'] is the list of stable phases that the rows of mobility and phaseFracs
+    correspond to (therm.phases if not given). The input arrays are not modified.
     '''
     excluded_phases = args[0]
-    phase_idxs = [therm.phases.index(p) for p in excluded_phases]
-    for p in phase_idxs:
-        phaseFracs[p] = 0
+    phases = kwargs.get('phases', therm.phases)
+    phaseFracs = np.array(phaseFracs)
+    for p in excluded_phases:
+        for row in _stablePhaseRows(therm, phases, p):
+            phaseFracs[row] = 0
     return mobility, phaseFracs
 
 class HomogenizationParameters:
@@ -352,7 +381,9 @@ def computeHomogenizationFunction(therm : GeneralThermodynamics, x, T, homogeniz
         phase_fracs = mobility_data.phase_fractions
         chemical_potentials[i,:] = mobility_data.chemical_potentials
 
-        mob, phase_fracs = homogenizationParameters.postProcessFunction(therm, mob, phase_fracs, *homogenizationParameters.postProcessParameters)
+        # mob and phase_fracs have one row per phase stable at this point (mobility_data.phases) and may be the arrays stored
+        # in the hash table, so post process functions look phases up by name and return new arrays rather than modify these
+        mob, phase_fracs = homogenizationParameters.postProcessFunction(therm, mob, phase_fracs, *homogenizationParameters.postProcessParameters, phases=mobility_data.phases)
         avg_mob[i] = homogenizationParameters.homogenizationFunction(mob, phase_fracs, labyrinth_factor = homogenizationParameters.labyrinthFactor)
 
     return np.squeeze(avg_mob), np.squeeze(chemical_potentials)
